@@ -10,16 +10,18 @@ from vf.par import pmap
 import sfc_models.utils as U
 
 NAMES = ['x', 'xx', 'x1', '_x', 'x_', 'e', 'j', 'k']
+# names whose spelling a numeric constructor (float(), complex()) would accept: they are names to the tokenizer and to eval()
+NUMLIKE = ['INF', 'nan', 'Infinity', 'inf', 'NaN']
 LITS = ['1e5', '0x1F', '2j', '.5', '1_000', '1e+5', '"x"', "'xx e'", '3', '2.5e-3']
 MAPS = [
     {'x': 'y'}, {'x': 'xx'}, {'xx': 'x'}, {'x': 'xx', 'xx': 'x'}, {'x': 'x1', 'x1': 'x_'}, {'e': 'E'}, {'j': 'J'}, {'k': 'kk'},
     {'x': 'e'}, {'_x': 'x_', 'x_': '_x'}, {'x': 'y', 'xx': 'yy', 'x1': 'y1'}, {'x': 'j', 'j': 'x'}, {'x': 'x'}, {'e': 'j', 'j': 'k', 'k': 'e'},
-    {'x_': 'HH__x', 'x': 'HH__x_'}
+    {'x_': 'HH__x', 'x': 'HH__x_'}, {'INF': 'CB__INF', 'x': 'y'}, {'nan': 'HH__nan', 'Infinity': 'HH__Infinity', 'inf': 'nan_', 'NaN': 'inf'}
 ]
 
 
 def expressions(tier):
-    atoms = NAMES + LITS
+    atoms = NAMES + LITS + NUMLIKE
     out = []
     ops2 = ['+', '-', '*', '/', '**', '<', '==', ' - ', '  *']
     for a, op, b in itertools.product(atoms, ops2, atoms):
@@ -41,7 +43,7 @@ def expressions(tier):
         out.append('[%s, %s]' % (a, b))
         out.append('[%s,]*%s' % (a, b))
     for a in atoms:
-        out += ['-%s' % a, '+ %s' % a, '(%s)' % a, '%s' % a, '((%s))*%s' % (a, a)]
+        out += ['-%s' % a, '+ %s' % a, '(%s)' % a, '%s' % a, '((%s))*%s' % (a, a), ' %s ' % a, '+%s' % a, ' - %s' % a, '%s ' % a]
     return out
 
 
@@ -177,7 +179,7 @@ def run(tier, seed):
     chk = Check('C13', tier, 'translation_validation', seed)
     chk.encode(U.list_tokens, U.replace_token, U.replace_token_from_lookup)
     ex = expressions(tier)
-    chk.bounds = {'expressions': len(ex), 'renaming maps': len(MAPS), 'names': NAMES, 'literals': LITS,
+    chk.bounds = {'expressions': len(ex), 'renaming maps': len(MAPS), 'names': NAMES + NUMLIKE, 'literals': LITS,
                   'grammar': 'binary/ternary arithmetic, power, comparisons, calls (1-2 args), lag notation x(k-1) and tokenizer-spaced, '
                              'list literals, unary signs, brackets; <= 7 tokens',
                   'numeric domain': 'all reals for every name; string/complex literals as opaque constants; function symbols uninterpreted'}
